@@ -40,6 +40,7 @@ def run(model, rep, tier):
     r11_totals_line(ctx, rep)
     r12_nullable_results(ctx, rep)
     r13_user_exceptions_not_hashed(ctx, rep)
+    r14_no_user_text_as_format_string(ctx, rep)
     rep.units['cfg'] = ctx.cfg_stats
 
 
@@ -849,3 +850,71 @@ def r13_user_exceptions_not_hashed(ctx, rep, R='C04.R13'):
                   % '; '.join(norm(b)[:50] for b in bad[:3]), key='exc-hash:' + fi.qualname,
                   func=fi.qualname, where=ctx.where(fi, bad[0] if bad else fi.node))
     rep.floor(R, n, 2, 'functions that handle exception objects')
+
+
+# ---------------------------------------------------------------------------------------------
+# R14 -- text that comes from user code is data, never a format string
+
+def r14_no_user_text_as_format_string(ctx, rep, R='C04.R14'):
+    rep.rule(R, 'text produced by user code (a traceback, an exception message, a test name) is never '
+             'interpreted as a format string: where a function uses one of its parameters as the left '
+             'operand of % (or as the receiver of .format), every call site in the package passes a '
+             'constant for it.  A traceback that contains "%" ("disk is 100% full", a quoted source '
+             'line) would otherwise raise TypeError / ValueError inside the failure report and abort '
+             'the run')
+    m = ctx.model
+    n = 0
+    for fi in m.all_functions():
+        if fi.module.name.startswith('tests'):
+            continue
+        a = fi.node.args
+        names = [x.arg for x in a.posonlyargs + a.args]
+        off = 1 if fi.cls is not None and names and names[0] in ('self', 'cls') else 0
+        fmt_params = set()
+        for x in ast.walk(fi.node):
+            if isinstance(x, ast.BinOp) and isinstance(x.op, ast.Mod) and isinstance(x.left, ast.Name) and \
+                    x.left.id in names[off:] and not any(
+                        isinstance(y, ast.Name) and y.id == x.left.id and isinstance(y.ctx, ast.Store)
+                        for y in ast.walk(fi.node)):
+                fmt_params.add(x.left.id)
+            if isinstance(x, ast.Call) and isinstance(x.func, ast.Attribute) and x.func.attr == 'format' and \
+                    isinstance(x.func.value, ast.Name) and x.func.value.id in names[off:]:
+                fmt_params.add(x.func.value.id)
+        for p_ in sorted(fmt_params):
+            n += 1
+            idx = names.index(p_) - off
+            bad = []
+            for caller in m.all_functions():
+                if caller.module.name.startswith('tests'):
+                    continue
+                for c in own_calls(caller.node):
+                    is_site = False
+                    if isinstance(c.func, ast.Attribute) and c.func.attr == fi.name and fi.cls is not None:
+                        is_site = True          # by method name: every formatter sibling shares the call sites
+                    elif isinstance(c.func, ast.Name) and c.func.id == fi.name and fi.cls is None:
+                        is_site = True
+                    if not is_site:
+                        continue
+                    v = c.args[idx] if idx < len(c.args) else kw(c, p_)
+                    if v is None:
+                        continue
+                    if isinstance(v, (ast.Constant,)) or (isinstance(v, ast.Name) and v.id in caller.module.constants):
+                        continue
+                    if isinstance(v, ast.BinOp) and isinstance(v.op, ast.Mod):
+                        continue            # already formatted by the caller: '...%s' % x is data here ... 
+                    bad.append((caller, c, v))
+            # a value the caller formatted itself is still text that may contain '%'
+            bad += [(cl, c, v) for cl in m.all_functions() if not cl.module.name.startswith('tests')
+                    for c in own_calls(cl.node)
+                    if ((isinstance(c.func, ast.Attribute) and c.func.attr == fi.name and fi.cls is not None) or
+                        (isinstance(c.func, ast.Name) and c.func.id == fi.name and fi.cls is None))
+                    for v in [c.args[idx] if idx < len(c.args) else kw(c, p_)]
+                    if isinstance(v, ast.BinOp) and isinstance(v.op, ast.Mod)]
+            rep.check(not bad, R, '%s uses its parameter %s as a format string; every caller passes a constant' % (fi.qualname, p_),
+                      '%s interprets its parameter %r as a format string, but %s passes %s: a "%%" in that '
+                      'text (an exception message, a quoted source line of a traceback) makes the report '
+                      'itself raise' % (fi.qualname, p_, bad[0][0].qualname if bad else '', norm(bad[0][2])[:50] if bad else ''),
+                      key='fmt-param:%s:%s' % (fi.qualname, p_), func=fi.qualname,
+                      where=ctx.where(bad[0][0], bad[0][1]) if bad else ctx.where(fi, fi.node))
+    if not n:
+        rep.assume('%s: no function of the package uses a parameter as a format string' % R)
